@@ -112,6 +112,12 @@ DestructShapes ==
        FnDecl(x[1], IF x[1] = "function" THEN "kill" ELSE "", VisAttr(x[2]) \o x[3][2], NoParams, x[3][3], TRUE,
               x[4][2] \o <<DestructCall(x[5], x[4][3])>>))
        : x \in {"function", "constructor", "fallback"} \X Vis5 \X ModifierSets \X SenderUses \X {"selfdestruct", "suicide"}}
+    \* a state-mutability keyword among the attributes changes nothing (payable functions are the usual place of a sweep)
+    \cup {I("destruct:payable:" \o x[1] \o ":" \o x[2] \o ":" \o x[3][1] \o ":" \o x[4][1], "CP",
+             FnDecl(x[1], IF x[1] = "function" THEN "sweep" ELSE "", VisAttr(x[2]) \o MutAttr("payable") \o x[3][2], NoParams, x[3][3], TRUE,
+                    x[4][2] \o <<DestructCall("selfdestruct", x[4][3])>>))
+           : x \in {"function", "fallback", "receive"} \X {"public", "external", "internal"}
+                   \X {m \in ModifierSets : m[1] \in {"none", "onlyOwner", "auth"}} \X {u \in SenderUses : u[1] \in {"none", "payable-payout", "require-eq"}}}
 \* the same call placed in every statement position of a public function
 DestructStmt == DestructCall("selfdestruct", Payable(MsgSender))
 
